@@ -67,6 +67,7 @@ type handlerSpec struct {
 	Exit    string      `json:"exit"`  // return | panic
 	Fault   string      `json:"fault"` // "", cutenv:<k>, cutpay, afterend, badendjson, ...
 	NoRead  bool        `json:"noread"`
+	NoClose bool        `json:"noclose"` // do not close the request body (handlers normally do)
 	Ignore  bool        `json:"ignore"` // ignore request-side failures (hostile handler)
 }
 
@@ -140,7 +141,8 @@ type clientObs struct {
 	CLen       int        `json:"clen"`
 	BodyLen    int        `json:"bodylen"`
 	ExtraHeads int        `json:"extraheads"`
-	Problems   []string   `json:"problems"`
+	Problems   []string   `json:"problems"` // framing problems a net/http stack refuses
+	Dropped    []string   `json:"dropped"`  // fields a net/http stack drops as not legal on the wire
 	Frames     []frameObs `json:"frames"`
 	Rest       int        `json:"rest"`
 	End        endObs     `json:"end"`
